@@ -506,6 +506,11 @@ def run():
     add(["unnamedjoin"], False, k=8 * m)                       # joined sub-pipeline with two un-named columns: reaching the result / behind a closing select
     add(["sort", "unnamedjoin"], False, rename=True, k=4 * m)
     add(["derive", "group_win", "exclude"], False, k=4 * m)
+    # hand-built programs of the shared relational findings (vplib/rel/e2e.directed_known): the ones that break the SQL
+    # (dangling names) are C05 failures too; the ones that only change row VALUES are not judged here (judge_cols)
+    for fid, pg, inst in E.directed_known(rng):
+        pg.meta["final_select"] = True          # each ends in a closing select
+        cases.append((pg, [inst or P.gen_instance(rng, max_rows=6, min_rows=4, extra=("zz",))]))
     recs = E.run_stream(ck, "columns", cases, targets, judge_cols, classify)
     ck.coverage["programs_without_final_select"] = len({r["prql"] for r in recs if not r["program"].meta.get("final_select", True)})
     srcs = sorted({r["prql"] for r in recs})
